@@ -1,47 +1,76 @@
 /-
-  Driver/Cwinop.lean — keyed count windows through the real `WindowOperator` (C12, keyed part).
-  header: `<id> cwinop <N> <S> <exact>`; ops: `e <elem>` with payloads `(<key>,<id>)`;
-  outputs: `<n> <elem>` = the operator's output elements in order, `n` = number of data elements
-  consumed when the element was returned; maximal runs of data lines with equal `n` are sorted
-  (hash-map order of the results emitted for one `FlushAndRestart`/`Terminate`), on both sides.
+  Driver/Cwinop.lean — keyed count windows + the real window aggregators through the real
+  `WindowOperator` (C12, keyed part).
+  header: `<id> cwinop <N> <S> <exact> <agg> <mode>`; ops: `e <elem>`, payloads `(<key>,<id>,<v>)`.
+  mode `op`: outputs `<n> <d|c> <elem>` = the operator's output elements in order, `n` = number of
+    data elements pulled when the element was returned, `d`/`c` = the element that triggered it was
+    a data / control element; the results triggered by ONE input element are sorted (hash-map
+    order of the managers at `FlushAndRestart`/`Terminate`), on both sides.
+  mode `seq<P>` / `par<P>`: whole engine (`group_by`, P replicas); one line `<key> [<results>]` per key.
 
-  model  = Model/WindowOp.lean (dispatch) instantiated with `CountWindow.mgr` (Model/CountWindowOp.lean);
-  oracle = the property (Props/C12WinOp.lean `cwin_keyed_groups`, `cwin_keyed_prefix`,
-           `cwin_keyed_never_mix`), computed from the input alone, without the manager model:
-           per key and iteration the sliding groups of that key's arrivals, each right after its
-           N-th element, then the end-of-iteration group; nothing mixes keys or iterations.
+  model  = Model/WindowOp.lean (dispatch) instantiated with `CountWindow.mgr`
+           (Model/CountWindowOp.lean, free accumulator), every emitted group mapped through the
+           accumulator triple of the aggregator (Model/WindowAggr.lean, `Acc.run`);
+  oracle = the property (Props/C12.lean `countWindow_aggregators`, Props/C12WinOp.lean
+           `cwin_keyed_groups`, `cwin_keyed_prefix`, `cwin_keyed_never_mix`, `cwin_keyed_aggregate`),
+           computed from the input alone, without the manager model: per key and iteration the
+           sliding groups of that key's arrivals, each right after its N-th element, then the
+           end-of-iteration group; every result = the aggregator applied to exactly the group's
+           elements in arrival order.
 -/
 import Driver.Proto
 import NoirVerif.Model.CountWindowOp
+import NoirVerif.Model.WindowAggr
 namespace Noir.Driver.Cwinop
-open Noir Noir.Driver Noir.CountWindow
+open Noir Noir.Driver Noir.CountWindow Noir.WindowAggr
 
 def sortStr (l : List String) : List String := (l.toArray.qsort (· < ·)).toList
-
-/-- an output line before printing: is it a data element, the count `n`, the element text -/
-structure Line where
-  isData : Bool
-  n : Nat
-  txt : String
-
-def Line.str (l : Line) : String := s!"{l.n} {l.txt}"
-
-/-- sort every maximal run of data lines with the same count (same as `canon` in cwinop.rs) -/
-def canon (ls : List Line) : List String :=
-  let rec go (ls : List Line) (unit : List String) (un : Nat) (acc : List String) : List String :=
-    match ls with
-    | [] => acc ++ sortStr unit
-    | l :: rest =>
-      if l.isData && (unit.isEmpty || un == l.n) then go rest (unit ++ [l.str]) l.n acc
-      else if l.isData then go rest [l.str] l.n (acc ++ sortStr unit)
-      else go rest [] 0 (acc ++ sortStr unit ++ [l.str])
-  go ls [] 0 []
 
 def keyOf : Val → String
   | .tup (k :: _) => k.toStr
   | v => v.toStr
 
-/-- the script as `ScriptOp` replays it: up to the first `TERM` (supplied if missing) -/
+/-- third component of the payload -/
+def valOf : Val → Int
+  | .tup [_, _, .int v] => v
+  | _ => 0
+
+/-! ### the aggregators (cwinop.rs `apply_agg`), as accumulator triples -/
+
+def optVal : Option Val → Val
+  | some v => v
+  | none => .none          -- `expect` panic (never: groups are non-empty)
+
+def optInt : Option Int → Val
+  | some v => .int v
+  | none => .none
+
+/-- value printed for a group -/
+def aggOf (agg : String) (g : List Val) : Val :=
+  match agg with
+  | "collect" => .list ((fold ([] : List Val) (fun v x => v ++ [x])).run g)
+  | "map" => .list ((collectVec (fun v : List Val => v)).run g)
+  | "sum" => .int ((sum (0 : Int) (fun s x => s + valOf x)).run g)
+  | "count" => .int ((count (α := Val)).run g)
+  | "min" => optInt ((minBy (fun x m : Int => decide (x < m))).run (g.map valOf))
+  | "max" => optInt ((maxBy (fun x m : Int => decide (x > m))).run (g.map valOf))
+  | "mink" => optVal ((minBy (fun x m : Val => decide (valOf x < valOf m))).run g)
+  | "maxk" => optVal ((maxBy (fun x m : Val => decide (valOf x > valOf m))).run g)
+  | "first" => optVal ((first (α := Val)).run g)
+  | "last" => optVal ((last (α := Val)).run g)
+  | "foldnc" => .int ((fold (0 : Int) (fun s x => (s * 31 + valOf x) % 1000003)).run g)
+  | _ => .none
+
+/-- an output line before printing -/
+structure Line where
+  isData : Bool
+  n : Nat
+  ctrl : Bool        -- triggered by a control element
+  txt : String
+
+def Line.str (l : Line) : String := s!"{l.n} {if l.ctrl then "c" else "d"} {l.txt}"
+
+/-- the script as the source replays it: up to the first `TERM` (supplied if missing) -/
 def cutAtTerm : List (Elem Val) → List (Elem Val)
   | [] => [.term]
   | .term :: _ => [.term]
@@ -49,19 +78,19 @@ def cutAtTerm : List (Elem Val) → List (Elem Val)
 
 def keyed (es : List (Elem Val)) : List (Elem (String × Val)) := es.map (Elem.map fun v => (keyOf v, v))
 
-def fmtData (k : String) (items : List Val) (ts : Option Int) : String :=
+def fmtData (k : String) (v : Val) (ts : Option Int) : String :=
   match ts with
-  | some t => s!"T:({k},{Val.list items}):{t}"
-  | none => s!"I:({k},{Val.list items})"
+  | some t => s!"T:({k},{v}):{t}"
+  | none => s!"I:({k},{v})"
 
-def fmtOut (n : Nat) (e : Elem (String × List Val)) : Line :=
+def fmtOut (agg : String) (n : Nat) (ctrl : Bool) (e : Elem (String × List Val)) : Line :=
   match e with
-  | .ts (k, items) t => ⟨true, n, fmtData k items (some t)⟩
-  | .item (k, items) => ⟨true, n, fmtData k items none⟩
-  | .wm t => ⟨false, n, elemToStr (.wm t)⟩
-  | .flushBatch => ⟨false, n, "FB"⟩
-  | .term => ⟨false, n, "TERM"⟩
-  | .far => ⟨false, n, "FAR"⟩
+  | .ts (k, items) t => ⟨true, n, ctrl, fmtData k (aggOf agg items) (some t)⟩
+  | .item (k, items) => ⟨true, n, ctrl, fmtData k (aggOf agg items) none⟩
+  | .wm t => ⟨false, n, ctrl, elemToStr (.wm t)⟩
+  | .flushBatch => ⟨false, n, ctrl, "FB"⟩
+  | .term => ⟨false, n, ctrl, "TERM"⟩
+  | .far => ⟨false, n, ctrl, "FAR"⟩
 
 /-- number of data elements among the first `i + 1` input elements, for every `i` -/
 def dataCounts (es : List (Elem Val)) : List Nat :=
@@ -71,19 +100,21 @@ def dataCounts (es : List (Elem Val)) : List Nat :=
     | e :: rest => let n' := if e.isData then n + 1 else n; n' :: go rest n'
   go es 0
 
-/-- model output -/
-def modelLines (cfg : Cfg) (es : List (Elem Val)) : List Line :=
+/-- units of lines → printed lines, each unit's data lines sorted -/
+def printUnits (us : List (List Line)) : List String :=
+  us.flatMap fun u => sortStr ((u.filter (·.isData)).map Line.str) ++ (u.filter (!·.isData)).map Line.str
+
+/-- model output, `op` mode: one unit per input element -/
+def modelUnits (cfg : Cfg) (agg : String) (es : List (Elem Val)) : List (List Line) :=
   let units := WindowOp.runUnits (mgr (α := Val) cfg) WindowOp.State.init (keyed es)
-  (units.zip (dataCounts es)).flatMap fun (u, n) => u.map (fmtOut n)
+  ((units.zip (dataCounts es)).zip es).map fun ((u, n), e) => u.map (fmtOut agg n (!e.isData))
 
 /-! ### the property oracle (spec side; does not use the manager model) -/
 
-/-- expected output, unit by unit: (lines of the unit in any order — only `FlushAndRestart` /
-    `Terminate` units can have more than one —, then the forwarded control line, if any).
-    `cur` = per key the arrivals of the current iteration (association list in first-arrival order). -/
-def specUnits (cfg : Cfg) (es : List (Elem Val)) : List (List Line × Option Line) :=
+/-- expected output, unit by unit. `cur` = per key the arrivals of the current iteration. -/
+def specUnits (cfg : Cfg) (agg : String) (es : List (Elem Val)) : List (List Line) :=
   let rec go (es : List (Elem Val)) (n : Nat) (cur : List (String × List Val))
-      (acc : List (List Line × Option Line)) : List (List Line × Option Line) :=
+      (acc : List (List Line)) : List (List Line) :=
     match es with
     | [] => acc.reverse
     | e :: rest =>
@@ -96,28 +127,28 @@ def specUnits (cfg : Cfg) (es : List (Elem Val)) : List (List Line × Option Lin
         -- a group completes iff |now| ≥ N ∧ (|now| - N) % S = 0: the last N arrivals of the key
         let grp : List Line :=
           if now.length ≥ cfg.size ∧ (now.length - cfg.size) % cfg.slide = 0 then
-            -- the stamp is checked by the model diff only: here we print the content
-            [⟨true, n + 1, s!"({k},{Val.list (now.drop (now.length - cfg.size))})"⟩]
+            [⟨true, n + 1, false, s!"({k},{aggOf agg (now.drop (now.length - cfg.size))})"⟩]
           else []
-        go rest (n + 1) cur' ((grp, none) :: acc)
+        go rest (n + 1) cur' (grp :: acc)
       | .far | .term =>
         let ends : List Line := cur.filterMap fun (k, arr) =>
           let r := residual cfg.size cfg.slide arr
-          if !cfg.exact ∧ !r.isEmpty then some ⟨true, n, s!"({k},{Val.list r})"⟩ else none
-        go rest n [] ((ends, some ⟨false, n, elemToStr e⟩) :: acc)
-      | _ => go rest n cur (([], some ⟨false, n, elemToStr e⟩) :: acc)
+          if !cfg.exact ∧ !r.isEmpty then some ⟨true, n, true, s!"({k},{aggOf agg r})"⟩ else none
+        go rest n [] ((ends ++ [⟨false, n, true, elemToStr e⟩]) :: acc)
+      | _ => go rest n cur ([⟨false, n, true, elemToStr e⟩] :: acc)
   go es 0 [] []
 
-/-- an implementation line: count, element -/
-def parseLine (s : String) : Option (Nat × Elem Val) :=
+/-- an implementation line: count, flag, element -/
+def parseLine (s : String) : Option (Nat × Bool × Elem Val) :=
   match words s with
-  | [n, e] => do
+  | [n, f, e] => do
     let n ← n.toNat?
     let e ← parseElem e
-    pure (n, e)
+    let f ← if f == "c" then some true else if f == "d" then some false else none
+    pure (n, f, e)
   | _ => none
 
-/-- content of a data line without its stamp: `(k,[..])` -/
+/-- content of a data line without its stamp: `(k,v)` -/
 def contentOf : Elem Val → Option String
   | .item v => some v.toStr
   | .ts v _ => some v.toStr
@@ -135,23 +166,29 @@ def iterOfPayload (es : List (Elem Val)) : List (String × Nat) :=
       | _ => go rest it acc
   go es 0 []
 
-def oracle (cfg : Cfg) (es : List (Elem Val)) (impl : List (Nat × Elem Val)) : List String :=
-  let spec := specUnits cfg es
-  -- the spec as a line sequence in the same canonical form as the implementation output
-  let specLines : List Line := spec.flatMap fun (ds, c) => ds ++ c.toList
-  let specCanon := canon specLines
-  let implLines : List Line := impl.map fun (n, e) =>
+def firstDiff (a b : List String) (i : Nat) : String :=
+  match a, b with
+  | x :: a', y :: b' => if x == y then firstDiff a' b' (i + 1) else s!"output line {i}: impl `{x}` spec `{y}`"
+  | x :: _, [] => s!"output line {i}: impl `{x}` spec has no more lines"
+  | [], y :: _ => s!"output line {i}: impl has no more lines, spec `{y}`"
+  | [], [] => "?"
+
+/-- the implementation lines are already sorted per unit (by the harness, which knows which input
+    element triggered each line); the spec is sorted per unit here -/
+def oracleOp (cfg : Cfg) (agg : String) (es : List (Elem Val)) (impl : List (Nat × Bool × Elem Val)) : List String :=
+  let specCanon := printUnits (specUnits cfg agg es)
+  let implCanon : List String := impl.map fun (n, f, e) =>
     match contentOf e with
-    | some c => ⟨true, n, c⟩
-    | none => ⟨false, n, elemToStr e⟩
-  let implCanon := canon implLines
-  -- never mix keys / iterations (diagnosed separately)
+    | some c => (Line.mk true n f c).str
+    | none => (Line.mk false n f (elemToStr e)).str
+  -- never mix keys / iterations (only visible with the collecting aggregators)
   let iters := iterOfPayload es
   let mix : List String :=
-    let rec go (ls : List (Nat × Elem Val)) (it : Nat) (acc : List String) : List String :=
+    if agg != "collect" && agg != "map" then [] else
+    let rec go (ls : List (Nat × Bool × Elem Val)) (it : Nat) (acc : List String) : List String :=
       match ls with
       | [] => acc
-      | (n, e) :: rest =>
+      | (n, _, e) :: rest =>
         match e with
         | .item (.tup [k, .list l]) | .ts (.tup [k, .list l]) _ =>
           let badKey := l.filter fun v => keyOf v != k.toStr
@@ -165,18 +202,42 @@ def oracle (cfg : Cfg) (es : List (Elem Val)) (impl : List (Nat × Elem Val)) : 
     go impl 0 []
   let cmp : List String :=
     if implCanon == specCanon then [] else
-      let rec firstDiff (a b : List String) (i : Nat) : String :=
-        match a, b with
-        | x :: a', y :: b' => if x == y then firstDiff a' b' (i + 1) else s!"output line {i}: impl `{x}` spec `{y}`"
-        | x :: _, [] => s!"output line {i}: impl `{x}` spec has no more lines"
-        | [], y :: _ => s!"output line {i}: impl has no more lines, spec `{y}`"
-        | [], [] => "?"
-      [s!"groups/positions differ from the per-key sliding groups: {firstDiff implCanon specCanon 0}"]
+      [s!"{agg}: results/positions differ from the aggregator applied to the per-key sliding groups: {firstDiff implCanon specCanon 0}"]
   mix ++ cmp
+
+/-! ### engine modes -/
+
+def dataOnly (es : List (Elem Val)) : List Val := es.filterMap Elem.value
+
+def keysOf (vs : List Val) : List String := (vs.map keyOf).eraseDups
+
+def sortKeys (ks : List String) : List String :=
+  (ks.toArray.qsort (fun a b => a.toInt?.getD 0 < b.toInt?.getD 0)).toList
+
+/-- model: the operator on `data ++ [FAR, TERM]`, results per key in order -/
+def modelEngine (cfg : Cfg) (agg : String) (vs : List Val) : List String :=
+  let es : List (Elem Val) := vs.map Elem.item ++ [.far, .term]
+  let out := WindowOp.run (mgr (α := Val) cfg) (keyed es)
+  (sortKeys (keysOf vs)).filterMap fun k =>
+    let rs := out.filterMap fun e => match e with
+      | .item (k', items) => if k' == k then some (aggOf agg items) else none
+      | .ts (k', items) _ => if k' == k then some (aggOf agg items) else none
+      | _ => none
+    if rs.isEmpty then none else some s!"{k} {Val.list rs}"
+
+/-- spec: per key the sliding groups of its arrival sequence, then the residual group -/
+def specEngine (cfg : Cfg) (agg : String) (vs : List Val) : List String :=
+  (sortKeys (keysOf vs)).filterMap fun k =>
+    let arr := vs.filter fun v => keyOf v == k
+    let full := (List.range arr.length).filterMap fun i =>
+      if i + 1 ≥ cfg.size ∧ (i + 1 - cfg.size) % cfg.slide = 0 then some ((arr.take (i + 1)).drop (i + 1 - cfg.size)) else none
+    let r := residual cfg.size cfg.slide arr
+    let gs := full ++ (if !cfg.exact ∧ !r.isEmpty then [r] else [])
+    if gs.isEmpty then none else some s!"{k} {Val.list (gs.map (aggOf agg))}"
 
 /-- some key receives an element, then another key does, then the first again, inside one iteration -/
 def interleaved (es : List (Elem Val)) : Bool :=
-  let rec go (es : List (Elem Val)) (seen : List String) (last : Option String) (left : List String) : Bool :=
+  let rec go (es : List (Elem Val)) (last : Option String) (left : List String) : Bool :=
     match es with
     | [] => false
     | e :: rest =>
@@ -188,48 +249,53 @@ def interleaved (es : List (Elem Val)) : Bool :=
           let left' := match last with
             | some l => if l != k && !left.contains l then l :: left else left
             | none => left
-          go rest (k :: seen) (some k) left'
-      | .far | .term => go rest [] none []
-      | _ => go rest seen last left
-  go es [] none []
+          go rest (some k) left'
+      | .far | .term => go rest none []
+      | _ => go rest last left
+  go es none []
 
 def handle (c : Case) : Verdict :=
   match c.header with
-  | [_, _, n, s, ex] =>
+  | _ :: _ :: n :: s :: ex :: more =>
     match n.toNat?, s.toNat?, ex.toNat? with
     | some n, some s, some ex =>
+      let agg := more.headD "collect"
+      let mode := (more.drop 1).headD "op"
       let cfg : Cfg := ⟨n, s, ex == 1⟩
       let es0 := c.ops.filterMap fun w => match w with | ["e", e] => parseElem e | _ => none
       let es := cutAtTerm es0
-      let ml := modelLines cfg es
-      let out := canon ml
       let nData := (es.filter Elem.isData).length
-      let ks := (es.filterMap Elem.value).map keyOf |>.eraseDups
-      let nRes := (ml.filter (·.isData)).length
+      let ks := keysOf (dataOnly es)
       let baseTags := [s!"N{if n == s then "=S" else if s == 1 then ",S=1" else if n % s == 0 then "%S=0" else "%S!=0"}",
-        s!"keys{ks.length}", if ex == 1 then "exact" else "inexact", s!"res{min nRes 3}"] ++
-        (if (es.filter Elem.isFar).length > 1 then ["multi-iter"] else []) ++
-        (if interleaved es then ["interleaved"] else []) ++
-        -- an end-of-iteration unit with results of several keys (hash-map order matters)
-        (if (specUnits cfg es).any (fun u => u.1.length ≥ 2) then ["end-unit>1"] else [])
-      match c.implOut with
-      | [l] =>
-        if l.startsWith "panic:" then
-          { out, oracle := some s!"[C12] {l} on a well-formed input", nontrivial := false, tags := baseTags ++ ["panic"] }
-        else finish cfg es out nData nRes baseTags c.implOut
-      | _ => finish cfg es out nData nRes baseTags c.implOut
+        if n ≥ 8 then "N>=8" else "N<8", s!"slots{min ((n + s - 1) / s) 6}",
+        s!"keys{ks.length}", if ex == 1 then "exact" else "inexact", s!"agg:{agg}", s!"mode:{mode.take 3}"]
+      let panicked := match c.implOut with | [l] => l.startsWith "panic:" | _ => false
+      if panicked then
+        { out := [], oracle := some s!"[C12] {c.implOut.headD ""} on a well-formed input", nontrivial := false, tags := baseTags ++ ["panic"] }
+      else if mode == "op" then
+        let mu := modelUnits cfg agg es
+        let out := printUnits mu
+        let nRes := (mu.flatten.filter (·.isData)).length
+        let tags := baseTags ++ [s!"res{min nRes 3}"] ++
+          (if (es.filter Elem.isFar).length > 1 then ["multi-iter"] else []) ++
+          (if interleaved es then ["interleaved"] else []) ++
+          (if (specUnits cfg agg es).any (fun u => (u.filter (·.isData)).length ≥ 2) then ["end-unit>1"] else [])
+        match c.implOut.mapM parseLine with
+        | none => { out, oracle := some "[C12] unparsable implementation output", nontrivial := false, tags }
+        | some impl =>
+          let fs := oracleOp cfg agg es impl
+          let orc := match fs with
+            | [] => none
+            | f :: _ => some s!"[C12] {f} ({fs.length} failures)"
+          { out, oracle := orc, nontrivial := nRes ≥ 1 && nData ≥ cfg.size, tags }
+      else
+        let vs := dataOnly es
+        let out := modelEngine cfg agg vs
+        let spec := specEngine cfg agg vs
+        let orc := if c.implOut == spec then none else
+          some s!"[C12] engine ({mode}) {agg}: per-key results differ from the aggregator applied to the per-key sliding groups: {firstDiff c.implOut spec 0}"
+        { out, oracle := orc, nontrivial := !out.isEmpty && nData ≥ cfg.size, tags := baseTags ++ [s!"res{min out.length 3}"] }
     | _, _, _ => { out := [], oracle := some "bad header", nontrivial := false }
   | _ => { out := [], oracle := some "bad header", nontrivial := false }
-where
-  finish (cfg : Cfg) (es : List (Elem Val)) (out : List String) (nData nRes : Nat) (tags : List String)
-      (implOut : List String) : Verdict :=
-    match implOut.mapM parseLine with
-    | none => { out, oracle := some "[C12] unparsable implementation output", nontrivial := false, tags }
-    | some impl =>
-      let fs := oracle cfg es impl
-      let orc := match fs with
-        | [] => none
-        | f :: _ => some s!"[C12] {f} ({fs.length} failures)"
-      { out, oracle := orc, nontrivial := nRes ≥ 1 && nData ≥ cfg.size, tags }
 
 end Noir.Driver.Cwinop
